@@ -150,6 +150,23 @@ def fam_rec(tier, rng):
                 m2.append(b2.print(*(spelled(rec_fields(base()), rd) + [lit("$", "|")])))
                 m2.append(b2.print(*(spelled(rec_fields(other()), rd) + [lit("$", "|")])))
                 out.append({"fam": "rec-suffix:%d/%s/%s%s" % (which, host, "w" if wr else "-", "r" if rd else "-"), "prog": prog(m2, types=TYPES)})
+    # numeric members that were never assigned take part in arithmetic as values of THEIR type (a fresh LONG member is
+    # a LONG zero: adding 20000 twice does not overflow; a fresh DOUBLE member keeps 15 digits)
+    for host in ("scalar", "element"):
+        b = B()
+        if host == "scalar":
+            base = lambda: var("R", "U")
+            main = [b.dim("R", "U", ty="REC")]
+        else:
+            base = lambda: idx("R", "U", [lit("I", 2)])
+            main = [b.dim("R", "U", [dimspec(1, 2)], ty="REC")]
+        fa, fs, fn, ft, fd = rec_fields(base())
+        main += [b.print(bin_("+", bin_("+", fn, lit("I", 20000)), lit("I", 20000))),
+                 b.print(bin_("*", bin_("+", fd, lit("L", 40000)), lit("I", 1000))),
+                 b.print(bin_("+", bin_("+", fa, lit("I", 20000)), lit("I", 10000))),
+                 b.let(fn, bin_("+", fn, lit("L", 70000))), b.let(fd, bin_("+", fd, lit("L", 123456789))),
+                 b.print(*rec_fields(base()))]
+        out.append({"fam": "rec-fresh-arith:" + host, "prog": prog(main, types=TYPES)})
     # whole-record assignment copies; later writes to the copy do not touch the source
     b = B()
     r, o = (lambda: var("R", "U")), (lambda: var("O", "U"))
